@@ -697,6 +697,8 @@ func c05Exotic() []string {
 		// non-ASCII blanks and look-alikes
 		"\u00a012", "12\u00a0", "\u00a0", "\u008512", "\u168012", "\u200312", "12\u2003", "\u300012", "\u202812", "\u202f12", "\u205f12",
 		"\u00a0-1.5e1", "\u00a00", "\u00a01", "\u200b12", "\ufeff12", "\u00a0 12", " \u00a012", "\u00a012\u00a0", "\u00a00x1A", "\u00a0abc", "\u20031e400", "\u00a0+nan",
+		// single bytes that are blanks only when mistaken for code points (Latin-1 NBSP / NEL, not valid UTF-8)
+		"\xa05", "\x855", "\xa012", " \xa012", "\xa0 5", "\x85-1.5", "5\xa0", "\xa0", "\xa00x1A", "\xa01e3",
 		// hex
 		"0x1A", "0X1a", "0x1p3", "0x1P-1", "-0x10", "+0x2", "0x", "0x.", "0x.8", "0xg", "0x1Ag", "0x1.8p1", " 0x10 ", "0x1p", "0x1p+", "1x", "0xfffffffffffffffff", "0x0", "-0x0", "0x1A ", "0x1_0",
 		// inf / nan
